@@ -238,7 +238,10 @@ class Group:
                     from mpservice.multiprocessing import Process
                     p = Process(target=child_uses_proxy, args=(D.handles[names['D'][-1]], kind))
                     p.start()
-                    p.join(60)
+                    try:
+                        p.join(60)
+                    except Exception as e:     # mpservice's join re-raises what the child raised
+                        return ('spawned-child-failed', f'child raised {e!r} in {history[:i + 1]}')
                     if p.exitcode != 0:
                         return ('spawned-child-failed', f'child exit code {p.exitcode} in {history[:i + 1]}')
                     del p
@@ -248,7 +251,10 @@ class Group:
                     p = Process(target=child_uses_proxy, args=(px, kind))
                     del px
                     p.start()      # (multiprocessing's start() deletes the arguments from the Process object)
-                    p.join(60)
+                    try:
+                        p.join(60)
+                    except Exception as e:     # mpservice's join re-raises what the child raised
+                        return ('spawned-child-failed', f'child raised {e!r} in {history[:i + 1]}')
                     if p.exitcode != 0:
                         return ('spawned-child-failed', f'child exit code {p.exitcode} in {history[:i + 1]} (the driver '
                                 'gave its proxy away to the child)')
